@@ -105,7 +105,13 @@ pub fn run(ctx: &mut Ctx) {
                 let base0 = Facts::from_dag(d, &POOL);
                 let ids: Vec<u32> = base0.terms.iter().map(|t| t.id).collect();
                 let groups = AnnGroups::new(s, &ids);
-                let base = Facts { anns: groups.interleaved(), ..base0 };
+                // besides the annotation facts: the bare registration (add_gene / add_*_disease) of records that are
+                // ALSO annotated - registering a record before or after annotating it is the same set of facts
+                let mut anns = groups.interleaved();
+                for rec in [super::common::G1, super::common::O1, super::common::R1] {
+                    anns.insert(anns.len() / 2, Facts::ann(rec.0, rec.1, rec.2, None));
+                }
+                let base = Facts { anns, ..base0 };
                 let r = RefOnt::derive(&base);
                 let exp = Obs::expected(&r, Mode::Minimal);
                 let (nt, ne, na) = (base.terms.len(), base.edges.len(), base.anns.len());
